@@ -8,7 +8,7 @@ ID = 'C01'
 LEVEL = 'exploration'
 SALTS = 8
 GUARD_STEPS = 250
-RULE = ('each run = one generated argument (propositional / modal / first-order with identity; 30% mutated library examples) '
+RULE = ('every 3rd run = its slice of a systematic enumeration: every quantifier node shape ([negated] quantifier over a [negated] body from 6 bodies, 48 shapes) in 23 small first-order contexts, in one logic per distinct rule-implementation group (quick) / every quantified logic (thorough), one seeded configuration each; the other runs: each run = one generated argument (propositional / modal / first-order with identity; 30% mutated library examples) '
         'in one of the 57 logics (stratified), proved K times (quick 3, thorough 6) under different optimisation-option '
         'combinations, drive modes, seeded tie-break orders and cache sizes; whenever a run completes with every branch closed, '
         '(a) the bounded countermodel search of the reference semantics R1 (exhaustive valuations for propositional arguments; '
@@ -38,6 +38,62 @@ def make_family(ctx):
             order_seed=0 if k == 0 else srng.getrandbits(32), cache=srng.choice(proofsim.CACHE_SIZES),
             drive=srng.choice(('build', 'step', 'stepiter'))))
     return cfgs
+
+# -- systematic part: every quantifier node shape in every small first-order context
+
+def _fo_enum():
+    x, m = ('v', 0, 0), ('c', 0, 0)
+    F, G, R = (0, 0, 1), (1, 0, 1), (2, 0, 2)
+    def neg(s): return ('O', 'Negation', (s,))
+    def P(pk, *a): return ('P', pk, tuple(a))
+    def Q(q, body): return ('Q', q, (0, 0), body)
+    bodies = [P(F, x), ('O', 'Conjunction', (P(F, x), P(G, x))), ('O', 'Disjunction', (P(F, x), P(G, x))),
+              ('O', 'MaterialConditional', (P(F, x), P(G, x))), ('O', 'Conditional', (P(F, x), P(G, x))), P(R, x, m)]
+    shapes = []
+    for body in bodies:
+        for q in ('Universal', 'Existential'):
+            for inner in (False, True):
+                for outer in (False, True):
+                    s = Q(q, neg(body) if inner else body)
+                    shapes.append(neg(s) if outer else s)
+    Fm, Gm = P(F, m), P(G, m)
+    c8 = [Fm, neg(Fm), Q('Universal', P(F, x)), Q('Existential', P(F, x)), neg(Q('Universal', P(F, x))),
+          neg(Q('Existential', P(F, x))), Q('Universal', neg(P(F, x))), Q('Existential', neg(P(F, x)))]
+    contexts = [(('X',), c) for c in c8]
+    contexts += [(('X', Fm), c) for c in (Gm, neg(Gm), Q('Existential', P(G, x)), Q('Universal', P(G, x)))]
+    contexts += [(('X', neg(Fm)), c) for c in (Gm, Q('Existential', P(G, x)))]
+    contexts += [((p,), 'X') for p in c8] + [((), 'X')]
+    return shapes, contexts
+FO_SHAPES, FO_CONTEXTS = _fo_enum()
+FO_SIZE = len(FO_SHAPES) * len(FO_CONTEXTS)
+FO_EVERY = 3
+
+_FO_REPS = None
+def fo_representatives():
+    "One quantified logic per distinct set of non-modal rule implementations (quantifier rules included)."
+    global _FO_REPS
+    if _FO_REPS is None:
+        from pytableaux.logics import registry
+        groups = {}
+        for name in proofwl.LOGICS:
+            if not refsem.get(name).quantified:
+                continue
+            key = []
+            for r in registry(name).Rules.all():
+                op = getattr(r, 'operator', None)
+                if op is not None and op.name in ('Possibility', 'Necessity'): continue
+                if any(c.__qualname__.startswith('access.') for c in r.__mro__): continue
+                own = tuple(c.__module__ + '.' + c.__qualname__ for c in r.__mro__
+                            if c.__module__.startswith('pytableaux') and any(not k.startswith('__') and k != '_abc_impl' for k in c.__dict__))
+                key.append((r.name, own))
+            groups.setdefault(tuple(sorted(key)), []).append(name)
+        _FO_REPS = sorted(min(v) for v in groups.values())
+    return _FO_REPS
+
+def fo_case(e):
+    shape = FO_SHAPES[e % len(FO_SHAPES)]
+    prems, conc = FO_CONTEXTS[(e // len(FO_SHAPES)) % len(FO_CONTEXTS)]
+    return [shape if p == 'X' else p for p in prems], (shape if conc == 'X' else conc)
 
 def witness_steps(res):
     n = 0
@@ -125,6 +181,28 @@ def brief(m):
         [(w, tuple(pk), [tuple(p) for p in ps], v) for w, pk, ps, v in d['preds'] if v != 'F'][:8])
 
 def run(ctx):
+    if ctx.index % FO_EVERY == FO_EVERY - 1:
+        # this run's slice of the first-order shape-in-context enumeration: quick = one logic per
+        # rule-implementation group, thorough = every quantified logic; one seeded configuration each
+        logics = fo_representatives() if ctx.tier == 'quick' else [l for l in proofwl.LOGICS if refsem.get(l).quantified]
+        total = FO_SIZE * len(logics)
+        nslices = max(1, plan(ctx.tier)['runs'] // FO_EVERY)
+        per = -(-total // nslices)
+        j = ctx.index // FO_EVERY
+        off = (ctx.seed * 7919) % total
+        srng = ctx.rng('schedule')
+        for e in range(j * per, min(total, (j + 1) * per)):
+            e = (e + off) % total
+            prems, conc = fo_case(e // len(logics))
+            opts = dict(proofwl.ALL_OPT_COMBOS[srng.randrange(4)])
+            opts['is_build_models'] = False
+            opts['max_steps'] = GUARD_STEPS
+            ctx.count('enumerated_fo_cases')
+            judge_family(ctx, [proofsim.Config(logics[e % len(logics)], prems, conc, opts,
+                order_seed=srng.choice((0, srng.getrandbits(32))), cache=srng.choice(proofsim.CACHE_SIZES), drive='build')], record=False)
+            if ctx.violations:
+                return
+        return
     judge_family(ctx, make_family(ctx))
 
 def replay(ctx, spec):
